@@ -62,6 +62,42 @@ def label(e, env):
     return "<%s>" % e["k"]
 
 
+def canon_into(seq):
+    """filling a local buffer commutes with writes to the sink (the sub-formatters only write): every ('into', buffer, ..) is placed right
+    before the next element of the sequence that mentions that buffer (its flush), or at the end -- so `fill buffer; write budget; flush`
+    and `write budget; fill buffer; flush` are one skeleton"""
+    out = list(seq)
+    i = len(out) - 1
+    while i >= 0:
+        o = out[i]
+        if isinstance(o, tuple) and o and o[0] == "into":
+            j = i + 1
+            while j < len(out) and o[1] not in repr(out[j]):
+                j += 1
+            if j > i + 1:
+                x = out.pop(i)
+                out.insert(j - 1, x)
+        i -= 1
+    return out
+
+
+def _neg(c):
+    c = str(c)
+    return c[2:-1] if c.startswith("!(") and c.endswith(")") else "!(%s)" % c
+
+
+def canon_tail_if(seq):
+    """`if c { return } REST` and `if !c { REST }` as the last statement of a function are one skeleton: [('unless', c)] + REST"""
+    out = list(seq)
+    if out and isinstance(out[-1], tuple) and out[-1][0] == "if":
+        _, c, then, els = out[-1]
+        if then and not els:
+            return out[:-1] + [("unless", _neg(c))] + canon_tail_if(then)
+        if els and not then:
+            return out[:-1] + [("unless", c)] + canon_tail_if(els)
+    return out
+
+
 class Emit:
     def __init__(self, facts, sink_names=("out", "s")):
         self.f = facts
@@ -86,7 +122,7 @@ class Emit:
                     env[p["name"]] = "@sink"
                 elif p["name"] != "self":
                     env[p["name"]] = p["name"]
-        return self.block(it["body"], env, depth, path)
+        return canon_tail_if(self.block(it["body"], env, depth, path))
 
     def block(self, e, env, depth, owner):
         e = strip(e)
@@ -99,7 +135,8 @@ class Emit:
                 if s["pat"]["k"] == "Binding" and s.get("init") is not None:
                     init = strip(s["init"])
                     if init["k"] == "Call" and (callee(init) or "").endswith("String::new"):
-                        env[s["pat"]["name"]] = "@buffer:" + s["pat"]["name"]
+                        nbuf = 1 + sum(1 for v in env.values() if isinstance(v, str) and v.startswith("@buffer:"))
+                        env[s["pat"]["name"]] = "@buffer:%d" % nbuf          # binder independent: numbered in declaration order
                     else:
                         env[s["pat"]["name"]] = label(s["init"], env)
                 continue
@@ -108,7 +145,7 @@ class Emit:
             out += self.stmt_expr(s["expr"], env, depth, owner)
         if e.get("expr"):
             out += self.stmt_expr(e["expr"], env, depth, owner)
-        return out
+        return canon_into(out)
 
     def stmt_expr(self, x, env, depth, owner):
         x = strip(x)
